@@ -147,7 +147,9 @@ type fsWire[A, Z any] struct {
 // it must be rejected: a verifier that sized its recomputed challenge after the proof would accept about one in 256.
 // Cheap protocols only (a simulation and a verification per challenge). Returns the number of proofs presented.
 func shortChallengeForgery[X sigma.Statement, W sigma.Witness, A sigma.Statement, S sigma.State, Z sigma.Response](x *engine.X, c *sigCase[X, W, A, S, Z], p sigma.Protocol[X, W, A, S, Z], x0 X) int {
-	if c.heavy || c.unitMS > 50 || c.noSimulator != nil || p.GetChallengeBytesLength() < 2 {
+	if c.heavy || c.unitMS > 50 || c.noSimulator != nil || p.GetChallengeBytesLength() < 2 || strings.Count(c.name, "/") > 1 {
+		// plain protocols only: the simulators of compositions draw from the shared stream in worker goroutines, so
+		// WHICH challenge a defective verifier would accept is not reproducible there
 		return 0
 	}
 	rng := stream(c.name + "/short-challenge")
